@@ -123,14 +123,16 @@ def run(R, env):
         def is_reward(t):
             return shared.is_reward(prog, t)
 
-        def is_net(t):
+        def is_net0(t):
             if t[0] != "payload":
                 return False
             c = shared.unwrap_payload(t)
             return c[0] == "call" and c[1] == "cosmwasm_std::Uint128::checked_sub" and is_reward(c[2][0]) and is_fee(c[2][1])
 
-        def is_fee(t):
+        def is_fee0(t):
             return t[0] == "call" and t[1] == "cosmwasm_std::Uint128::multiply_ratio" and any(is_reward(a) for a in t[2][1:])
+
+        is_net, is_fee = shared.via_forms(prog, is_net0), shared.via_forms(prog, is_fee0)
 
         staker_transfer(R, "C01.R2", "ReceiveRewards", prog, h, env, is_net, "Ok(checked_sub(reward, fee))")
         ws = shared.state_writes(prog, h, env)
